@@ -53,6 +53,9 @@ Harness-only dimensions the Lean model is independent of (all optional keys; abs
                            shared by every field naming it whatever the field's NAME; it names the field it converts from the
                            Attribute it is given; f["conv_prime"]: the name of the field of a throw-away class the object is
                            used for FIRST
+  f["helper_sub"]          the Factory / Converter / and_() objects of the field are instances of user SUBCLASSES of attrs's public
+                           helper types (SubFactory, SubConverter, SubAnd): wherever attrs dispatches on the type they must behave
+                           like the base type (`factory=f` is then spelled `default=SubFactory(f)`)
   call values              tokens of ODD_KINDS decode to objects with unusual __eq__/__ne__/__bool__/__hash__
 """
 from __future__ import annotations
@@ -399,7 +402,7 @@ def _mk_factory(name, takes_self):
 
 
 def mk_converter(*a, **k):
-    return _ctx_live().memo(('mk_converter', a, tuple(sorted(k.items()))), lambda: _mk_converter(*a, **k))
+    return _ctx_live().memo(('mk_converter', a, tuple(sorted(k.items())), _SUB[0]), lambda: _mk_converter(*a, **k))
 
 
 def _mk_converter(name, kind, ann, idx=0, odd=None):
@@ -424,7 +427,7 @@ def _mk_converter(name, kind, ann, idx=0, odd=None):
             fn = CB_ODD[odd](fn)            # a hostile-but-valid callable object around the traced callback
     if kind == "plain":
         return fn
-    return attr.Converter(fn, takes_self=ts, takes_field=tf)
+    return (SubConverter if _SUB[0] else attr.Converter)(fn, takes_self=ts, takes_field=tf)
 
 
 def mk_validator(*a, **k):
@@ -701,7 +704,31 @@ def _odd_cb(f, role, fn):
     return CB_ODD[k](fn)
 
 
+class SubFactory(attr.Factory):
+    """a user subclass of the public attr.Factory (e.g. one that carries documentation): still a factory default"""
+    __slots__ = ()
+
+
+class SubConverter(attr.Converter):
+    __slots__ = ()
+
+
+class SubAnd(type(attr.validators.and_())):
+    """a user subclass of the composite validator class and_() returns"""
+
+
+_SUB = [False]            # the field being declared uses the subclasses above
+
+
 def _field_obj(f, next_gen):
+    _SUB[0] = bool(f.get("helper_sub")) and not _EQ[0]
+    try:
+        return _field_obj_(f, next_gen)
+    finally:
+        _SUB[0] = False
+
+
+def _field_obj_(f, next_gen):
     ctx = _ctx()
     if f.get("ca_reuse") and _TAG[0] == "SIB." and f["name"] in ctx.cas:
         # a sibling class takes the very attr.ib()/field() OBJECT a class of the real chain was declared with and
@@ -716,12 +743,14 @@ def _field_obj(f, next_gen):
         kw["default"] = _dflt_value(f["name"], f.get("dflt_kind", "str"))
     elif d == "factory":
         fac = _odd_cb(f, "factory", mk_factory(f["name"], False))
-        if f.get("factory_style") == "Factory":
+        if _SUB[0]:
+            kw["default"] = SubFactory(fac)
+        elif f.get("factory_style") == "Factory":
             kw["default"] = attr.Factory(fac)
         else:
             kw["factory"] = fac
     elif d == "factory_self":
-        kw["default"] = attr.Factory(_odd_cb(f, "factory", mk_factory(f["name"], True)), takes_self=True)
+        kw["default"] = (SubFactory if _SUB[0] else attr.Factory)(_odd_cb(f, "factory", mk_factory(f["name"], True)), takes_self=True)
     if not f.get("init", True):
         kw["init"] = False
     if f.get("kw_only"):
@@ -742,7 +771,8 @@ def _field_obj(f, next_gen):
     if m >= 1 and f.get("v_shared"):
         kw["validator"] = ctx.shared_validator(f["v_shared"], m)
     elif m >= 1 and f.get("v_and"):
-        kw["validator"] = attr.validators.and_(*[_odd_cb(f, "validator_list", mk_validator(f["name"], i)) for i in range(m)])
+        members = [_odd_cb(f, "validator_list", mk_validator(f["name"], i)) for i in range(m)]
+        kw["validator"] = SubAnd(tuple(members)) if _SUB[0] else attr.validators.and_(*members)
     elif m == 1:
         kw["validator"] = _odd_cb(f, "validator", mk_validator(f["name"], 0))
     elif m >= 2:
@@ -1316,6 +1346,9 @@ def gen_field(rng, name, frozen, rich=True, pipes=0.0, dflt_objs=False):
         # one Converter OBJECT for every field of the build naming the group, first used for a field of another name
         f["conv_shared"] = rng.choice(["g1", "g2"])
         f["conv_prime"] = rng.choice([n for n in FIELD_NAMES if n != name])
+    if rng.random() < 0.2:
+        # Factory / Converter / and_() objects that are instances of user subclasses of attrs's helper types
+        f["helper_sub"] = True
     if rich and rng.random() < 0.15:
         # factory / converter / validator callables that are callable OBJECTS with unusual special methods
         f["cb_odd"] = rng.choice(sorted(CB_ODD))
